@@ -34,7 +34,7 @@ use rustc_span::Span;
 
 static RECORDS: Mutex<Vec<String>> = Mutex::new(Vec::new());
 
-const DRIVER_VERSION: &str = "bcfacts-4";
+const DRIVER_VERSION: &str = "bcfacts-6";
 
 // ------------------------------------------------------------------------------------------
 // JSON helpers
@@ -220,9 +220,42 @@ impl<'a, 'tcx> Cx<'a, 'tcx> {
                     let _ = write!(o, ",\"promoted\":{}", p.as_usize());
                 } else {
                     let _ = write!(o, ",\"uneval\":{}", jstr(&dpath(tcx, uv.def)));
+                    // a plain crate-local `const X: int|&str = ...;` is evaluated so that rules see
+                    // its value, not its name
+                    if uv.def.is_local()
+                        && matches!(tcx.def_kind(uv.def), DefKind::Const { .. })
+                        && tcx.generics_of(uv.def).count() == 0
+                        && (is_str_or_bytes(ty) || matches!(ty.kind(), ty::Int(_) | ty::Uint(_) | ty::Bool))
+                    {
+                        if let Ok(cv) = tcx.const_eval_poly(uv.def) {
+                            match cv {
+                                ConstValue::Scalar(mir::interpret::Scalar::Int(i)) => {
+                                    if let Some(s) = scalar_int_str(tcx, i, ty) {
+                                        let _ = write!(o, ",\"int\":{}", jstr(&s));
+                                    }
+                                }
+                                ConstValue::Slice { .. } => {
+                                    if let Some(b) = cv.try_get_slice_bytes_for_diagnostics(tcx) {
+                                        let hex: String = b.iter().map(|x| format!("{:02x}", x)).collect();
+                                        let _ = write!(o, ",\"bytes\":{}", jstr(&hex));
+                                    }
+                                }
+                                _ => {}
+                            }
+                        }
+                    }
                 }
             }
             Const::Ty(_, ct) => {
+                // string patterns (`match s { "sync" => … }`) are valtree constants
+                if is_str_or_bytes(ty) {
+                    if let Some(v) = ct.try_to_value() {
+                        if let Some(b) = v.try_to_raw_bytes(tcx) {
+                            let hex: String = b.iter().map(|x| format!("{:02x}", x)).collect();
+                            let _ = write!(o, ",\"bytes\":{}", jstr(&hex));
+                        }
+                    }
+                }
                 if let Some(sc) = ct.try_to_scalar() {
                     if let Ok(i) = sc.try_to_scalar_int() {
                         if let Some(s) = scalar_int_str(tcx, i, ty) {
